@@ -11,7 +11,7 @@ one() {
   S=$1; ID=${CID:-${S:0:3}}; W=$ROOT/$S.$ID.$TIER; rm -rf "$W"; mkdir -p "$W"
   P=/verif/seeded/$S/patch.diff; [ -f /verif/seeded/$S/patch.ported.diff ] && P=/verif/seeded/$S/patch.ported.diff
   [ -f "$P" ] || P=$S   # a bare patch file path is accepted too
-  git -C /repo worktree add -q --detach "$W/repo" HEAD || { echo "$S: WORKTREE-FAILED"; return; }
+  git -C /repo worktree prune; git -C /repo worktree add -q -f --detach "$W/repo" HEAD || { echo "$S: WORKTREE-FAILED"; return; }
   if ! git -C "$W/repo" apply "$P" 2>/dev/null; then echo "$S: PATCH-DOES-NOT-APPLY"; git -C /repo worktree remove --force "$W/repo"; rm -rf "$W"; return; fi
   rsync -a --exclude .git --exclude '.cache/overlay' --exclude '.cache/*.log' --exclude replays /verif/ "$W/verif/"
   L=/verif/.cache/pseed_$(basename $S).$ID.$TIER.log
